@@ -99,6 +99,32 @@ def insert_bad(doc: dict, r, position: str, bad_key: str, n: int):
             nm = f"{fresh}Dep{i}"
             comps[nm] = {"type": "object", "properties": {"zq_link": {"$ref": f"#/components/schemas/{prev}"}}} if i % 2 == 0 else {"type": "array", "items": {"$ref": f"#/components/schemas/{prev}"}}
             prev = nm
+    elif position == "depended_family":
+        # bad W <- parent P (property) <- {another dependant of P, allOf child of P, grandchild, union / dict / list users}, declared in random order
+        # W either fails when it is created (the bad piece itself) or later, when its properties are processed
+        comps[fresh] = bad if r.random() < 0.5 else {"type": "object", "properties": {"fine": {"type": "string"}, "zq_late": bad}}
+        P = f"{fresh}P"
+        fam = {
+            P: {"type": "object", "properties": {"ok": {"type": "string"}, "zq_w": {"$ref": f"#/components/schemas/{fresh}"}}},
+            f"{fresh}Other": {"type": "object", "properties": {"zq_p": {"$ref": f"#/components/schemas/{P}"}}},
+            f"{fresh}Child": {"allOf": [{"$ref": f"#/components/schemas/{P}"}, {"type": "object", "properties": {"zq_c": {"type": "integer"}}}]},
+            f"{fresh}Grand": {"allOf": [{"$ref": f"#/components/schemas/{fresh}Child"}, {"type": "object", "properties": {"zq_g": {"type": "integer"}}}]},
+            f"{fresh}Lst": {"type": "object", "properties": {"zq_l": {"type": "array", "items": {"$ref": f"#/components/schemas/{P}"}}}},
+            f"{fresh}Dct": {"type": "object", "additionalProperties": {"$ref": f"#/components/schemas/{fresh}Child"}},
+        }
+        ks = list(fam)
+        r.shuffle(ks)
+        for k_ in ks:
+            comps[k_] = fam[k_]
+    elif position == "existing_model_sharing_a_reference":
+        # X fails at model-processing time *after* a property that refers to a schema other models refer to as well
+        g, _ = ref_graph(d)
+        cands = [x for x in models if any(t in g.get(y, ()) for t in g.get(x, ()) for y in models if y != x)]
+        if not cands:
+            return None
+        x = r.choice(cands)
+        comps[x].setdefault("properties", {})[f"zq_bad_{n}"] = bad
+        touched.add(x)
     elif position in ("new_op_param", "new_op_response", "new_op_body", "new_op_optional_path", "new_op_duplicate_params", "new_op_unparseable_body", "new_op_bad_status"):
         op = {"operationId": f"zq_bad_op_{n}", "responses": {"200": {"description": "ok"}}}
         path = f"/zq-bad-{n}"
@@ -197,6 +223,9 @@ def main() -> int:
         base_docs.append((f"random:{i}", d))
     for l, d in docs.matrix_docs()[:: (8 if quick else 2)]:
         base_docs.append((f"matrix:{l}", d))
+    for l, d in docs.sharing_docs():
+        base_docs.append((l, d))
+        base_docs.append((l + ":b", d))
     bjobs = []
     for bi, (label, d) in enumerate(base_docs):
         j = run.job(d, want=["tree", "manifest"])
@@ -205,7 +234,7 @@ def main() -> int:
     bres = run.map(bjobs, timeout=300)
     clean = {bi: res for bi, res in enumerate(bres) if not res.get("_error") and not res.get("exc") and res.get("accepted") and not res.get("diags")}
     ev.count("clean_bases", len(clean))
-    positions = ["new_component", "new_model_property", "new_array_items", "new_union_member", "new_allof_parent", "new_additional", "existing_model_property", "depended_component",
+    positions = ["new_component", "new_model_property", "new_array_items", "new_union_member", "new_allof_parent", "new_additional", "existing_model_property", "depended_component", "depended_family", "existing_model_sharing_a_reference", "existing_model_sharing_a_reference",
                  "new_op_param", "new_op_response", "new_op_body", "new_op_optional_path", "new_op_duplicate_params", "new_op_unparseable_body", "new_op_bad_status"]
     jobs, info = [], {}
     per_base = 8 if quick else 30
